@@ -11,6 +11,7 @@ import Stef.Proofs.Varint
 import Stef.Proofs.Codec
 import Stef.Proofs.Uvc
 import Stef.Proofs.BitRoundtrip
+import Stef.Proofs.UvcReader
 
 namespace Stef.Props.C20
 open Stef Stef.Spec Stef.Codec
@@ -77,6 +78,27 @@ theorem uvc_roundtrip (v : Word) (rest : Bits) (hv : v.toNat < 2 ^ 48) :
 theorem uvc_write_every_alignment (w : BitsWriter) (v : Word) (hI : w.Inv) (hv : v.toNat < 2 ^ 48) :
     (w.writeUvarintCompact v).1.toBits = w.toBits ++ Uvc.uvcBits v ∧ (w.writeUvarintCompact v).1.Inv :=
   Uvc.writeUvarintCompact_spec w v hI hv
+
+/-- **uvc_reader_refines_spec**: the register-level Go `ReadUvarintCompact` (peek 56 bits, count
+    leading zeros, shift / mask / consume count from the regenerated READ tables) returns, at every
+    reachable reader state, what the specification's reader returns on the buffer's bits, consumes
+    the same bits and reports no error. -/
+theorem uvc_reader_refines_spec (r : BitsReader) (pos : Nat) (hI : BitsReader.RInv r pos) (x : Word)
+    (rest' : Bits) (h : readUvc ((bytesBits r.buf).drop pos) = some (x, rest')) :
+    (r.readUvarintCompact).2 = x ∧
+    ∃ n, rest' = (bytesBits r.buf).drop (pos + n) ∧ BitsReader.RInv (r.readUvarintCompact).1 (pos + n) ∧
+      (r.readUvarintCompact).1.err = false :=
+  BitsReader.readUvarintCompact_refines r pos hI x rest' h
+
+/-- **uvc_register_roundtrip**: wherever the bits `WriteUvarintCompact(v)` emitted (v < 2^48) lie
+    in a reader's buffer, at any bit position and any register state, `ReadUvarintCompact` returns `v`. -/
+theorem uvc_register_roundtrip (r : BitsReader) (pos : Nat) (hI : BitsReader.RInv r pos) (v : Word)
+    (hv : v.toNat < 2 ^ 48) (rest : Bits) (hbits : (bytesBits r.buf).drop pos = Uvc.uvcBits v ++ rest) :
+    (r.readUvarintCompact).2 = v ∧ (r.readUvarintCompact).1.err = false := by
+  have h := Uvc.uvc_roundtrip v rest hv
+  rw [← hbits] at h
+  obtain ⟨h1, _, _, _, h4⟩ := BitsReader.readUvarintCompact_refines r pos hI v rest h
+  exact ⟨h1, h4⟩
 
 /-- **uvc_is_spec_table**: the Go write tables serve every leading-zero class 16..64 as one of
     the eight classes of the specification, and the Go read tables (shift, mask, consume) are
